@@ -297,8 +297,10 @@ class ExecutionContext:
                     else:
                         return None
                 case LinearIR.OpCode.CALL:
+                    # Arguments are passed by value: arrays and structures are
+                    # updated in place, so the callee gets copies of them
                     callArgs = [
-                        localScope[arg.Reference]
+                        copy.deepcopy(localScope[arg.Reference])
                         for arg in instruction.Arguments
                     ]
                     localScope[instruction.Reference] = self._Invoke(
